@@ -98,16 +98,24 @@ Definition e_none : pyexpr := EConst (s2l "None").
 Definition e_optstr (o : option chars) : pyexpr := match o with Some s => e_str s | None => e_none end.
 Definition e_bool (b : bool) : pyexpr := EConst (s2l (if b then "True" else "False")).
 Definition e_val (v : pyval) : pyexpr := EConst (unparse_const v).
+(* fields.generate_default_value: lists and dicts become displays whose leaves are constants (so
+   every float leaf gets ast.unparse's treatment of non-finite values); anything else one constant *)
+Fixpoint gen_dv (v : pyval) : pyexpr :=
+  match v with
+  | PList l => EList (map gen_dv l)
+  | PDict kv =>
+      EDict ((fix go (kv : list (chars * pyval)) : list (pyexpr * pyexpr) :=
+                match kv with [] => [] | (k, x) :: r => (e_str k, gen_dv x) :: go r end) kv)
+  | _ => EConst (unparse_const v)
+  end.
 Definition e_default (d : option pyval) : pyexpr :=
-  match d with None => EName (s2l "Undefined") | Some v => e_val v end.
+  match d with None => EName (s2l "Undefined") | Some v => gen_dv v end.
 Definition call (f : string) (args : list pyexpr) (kw : list (string * pyexpr)) : pyexpr :=
   ECall (EName (s2l f)) args (map (fun p => (s2l (fst p), snd p)) kw).
-(* a dict / list display whose parts are all literals is indistinguishable, in the file, from a
-   constant: the canonical form of an empty display is the constant *)
-Definition mk_dict (kv : list (pyexpr * pyexpr)) : pyexpr :=
-  match kv with [] => EConst (s2l "{}") | _ => EDict kv end.
-Definition mk_list (l : list pyexpr) : pyexpr :=
-  match l with [] => EConst (s2l "[]") | _ => EList l end.
+(* ast.Constant({}) / ast.Constant([]) and an empty display are the same text in the file: the abstract
+   module is what Python's parser sees, i.e. displays; EConst carries atoms only *)
+Definition mk_dict (kv : list (pyexpr * pyexpr)) : pyexpr := EDict kv.
+Definition mk_list (l : list pyexpr) : pyexpr := EList l.
 
 Definition tm_get (tm n : chars) : pyexpr := ESub (EName tm) (e_str n).
 
@@ -146,19 +154,19 @@ Definition gen_field (U : list ftype) (tm : chars) (f : ffield) : pyexpr :=
 
 Definition gen_field_map (U : list ftype) (tm : chars) (fs : list ffield) : pyexpr :=
   match fs with
-  | [] => EConst (s2l "{}")
+  | [] => EDict []
   | _ => ELambda (EDict (map (fun f => (e_str (f_name f), gen_field U tm f)) fs))
   end.
 
 Definition gen_input_field_map (U : list ftype) (tm : chars) (fs : list farg) : pyexpr :=
   match fs with
-  | [] => EConst (s2l "{}")
+  | [] => EDict []
   | _ => ELambda (EDict (map (fun a => (e_str (a_name a), gen_arg "GraphQLInputField" U tm a)) fs))
   end.
 
 Definition gen_type_list (tm : chars) (ann : string) (names : list chars) : pyexpr :=
   match names with
-  | [] => EConst (s2l "[]")
+  | [] => EList []
   | _ => ELambda (call "cast" [ESub (EName (s2l "List")) (EName (s2l ann));
                                EList (map (tm_get tm) names)] [])
   end.
@@ -287,9 +295,40 @@ Definition ev_optstr (e : pyexpr) : option (option chars) :=
   match lit e with Some (PStr s) => Some (Some s) | Some PNone => Some None | _ => None end.
 Definition ev_bool (e : pyexpr) : option bool :=
   match lit e with Some (PBool b) => Some b | _ => None end.
+(* value of a constant expression: atoms by literal_eval (a float spelled 1e309 IS inf), displays
+   element-wise, dict displays with last-wins keys; a bare name (inf, nan) is a NameError *)
+Fixpoint ev_val (e : pyexpr) : option pyval :=
+  match e with
+  | EConst src =>
+      match py_literal_eval src with
+      | Some (PFloat lx) => Some (PFloat (canon_float lx))
+      | o => o
+      end
+  | EList l =>
+      option_map PList
+        ((fix go (l : list pyexpr) : option (list pyval) :=
+            match l with
+            | [] => Some []
+            | x :: r => match ev_val x, go r with Some v, Some vs => Some (v :: vs) | _, _ => None end
+            end) l)
+  | EDict kv =>
+      option_map (fun l => PDict (dict_norm l))
+        ((fix go (kv : list (pyexpr * pyexpr)) : option (list (chars * pyval)) :=
+            match kv with
+            | [] => Some []
+            | (k, x) :: r =>
+                match (match k with
+                       | EConst src => match py_literal_eval src with Some (PStr s) => Some s | _ => None end
+                       | _ => None end), ev_val x, go r with
+                | Some k, Some v, Some vs => Some ((k, v) :: vs)
+                | _, _, _ => None
+                end
+            end) kv)
+  | _ => None
+  end.
 Definition ev_default (b : bool) (tm : chars) (e : pyexpr) : option (option pyval) :=
   if gname b tm e "Undefined" then Some None
-  else match lit e with Some v => Some (Some v) | None => None end.
+  else match ev_val e with Some v => Some (Some v) | None => None end.
 
 Definition kw (k : string) (kws : list (chars * pyexpr)) : option pyexpr := assoc (s2l k) kws.
 (* keyword with the constructor's default when absent *)
@@ -302,7 +341,6 @@ Definition as_dict (e : pyexpr) : option (list (chars * pyexpr)) :=
   | EDict kv =>
       option_map dict_norm
         (mapM (fun p => match ev_str (fst p) with Some k => Some (k, snd p) | None => None end) kv)
-  | EConst _ => match lit e with Some (PDict []) => Some [] | _ => None end
   | _ => None
   end.
 (* a thunk is evaluated later (type-map variable bound); anything else where it stands *)
@@ -389,7 +427,7 @@ Definition ev_input_fields (b0 : bool) (tm : chars) (E : env) (e : pyexpr) : opt
 Definition ev_type_list (b0 : bool) (tm : chars) (E : env) (ann : string) (e : pyexpr) : option (list chars) :=
   let '(b, body) := unthunk b0 e in
   match body with
-  | EConst _ => match lit body with Some (PList []) => Some [] | _ => None end
+  | EList [] => Some []
   | _ =>
       match as_call b tm "cast" body with
       | Some ([ESub l a; EList xs], []) =>
@@ -407,7 +445,7 @@ Definition ev_type_list (b0 : bool) (tm : chars) (E : env) (ann : string) (e : p
 Definition ev_enum_value (b : bool) (tm : chars) (p : chars * pyexpr) : option fenumval :=
   match as_call b tm "GraphQLEnumValue" (snd p) with
   | Some ([], kws) =>
-      match match kw "value" kws with None => Some PNone | Some e => lit e end,
+      match match kw "value" kws with None => Some PNone | Some e => ev_val e end,
             kw_optstr "description" kws, kw_optstr "deprecation_reason" kws with
       | Some v, Some ds, Some dp =>
           Some {| ev_name := fst p; ev_value := v; ev_desc := ds; ev_depr := dp |}
@@ -515,7 +553,6 @@ Definition ev_opt_ref (tm : chars) (E : env) (o : option pyexpr) : option (optio
 Definition as_list (e : pyexpr) : option (list pyexpr) :=
   match e with
   | EList l => Some l
-  | EConst _ => match lit e with Some (PList []) => Some [] | _ => None end
   | _ => None
   end.
 
@@ -593,7 +630,7 @@ Definition wf_type (vok : pyval -> bool) (U : list ftype) (t : ftype) : bool :=
   | DObject ifs fs | DInterface ifs fs =>
       forallb (has_class U "GraphQLInterfaceType") ifs && wf_fields vok U fs
   | DUnion ms => forallb (has_class U "GraphQLObjectType") ms
-  | DEnum vs => nodup_keys (map ev_name vs) && forallb (fun v => vok (ev_value v)) vs
+  | DEnum vs => nodup_keys (map ev_name vs) && forallb (fun v => is_atom (ev_value v) && vok (ev_value v)) vs
   | DInput fs => wf_args vok U fs
   end.
 Definition wf_root (U : list ftype) (o : option chars) : bool :=
@@ -609,11 +646,12 @@ Definition wf_gen (vok : pyval -> bool) (S : fschema) : bool :=
    constants are Python values) *)
 Definition valid_fschema (S : fschema) : bool := wf_gen py_val S.
 
-(* the guard of the round-trip theorem: valid, all float constants finite (finding
-   C16-nonfinite-float-nested), type-map variable not named like an import (finding
-   C16-typemap-name-shadows-import) *)
+(* the guard of the round-trip theorem: valid with constants in dv_val (py_val minus nan, which no SDL or
+   introspection literal can denote; non-finite floats included since fix 060db67), type-map variable
+   not named like an import (finding C16-typemap-name-shadows-import).  Enum values are atoms (in this
+   strategy: the value names); they still travel through one repr()-ed constant. *)
 Definition wf_fschema (S : fschema) (tm : chars) : bool :=
-  negb (mem_chars tm BUILTIN_NAMES) && wf_gen wf_val S.
+  negb (mem_chars tm BUILTIN_NAMES) && wf_gen dv_val S.
 
 (* the schema the generated module is expected to define: the source without the standard types
    (GraphQLSchema() adds those back itself) *)
@@ -827,7 +865,8 @@ Definition run_schemagen (e : sexp) : sexp :=
   | L [A "repr"; v] =>
       match pyval_of_sexp v with
       | Some v => L [sC (py_repr v); sB (wf_val v); sB (py_val v);
-                     sRes pyval_to_sexp (py_literal_eval (py_repr v)); sC (unparse_const v)]
+                     sRes pyval_to_sexp (py_literal_eval (py_repr v)); sC (unparse_const v);
+             sB (dv_val v); pyexpr_to_sexp (gen_dv v); sRes pyval_to_sexp (ev_val (gen_dv v))]
       | None => sErr "repr: bad value" end
   | L [A "leval"; A s] => sRes pyval_to_sexp (py_literal_eval (s2l s))
   | L [A "tables"] =>
